@@ -27,14 +27,15 @@ func TestVerifC14Enum(t *testing.T) {
 			{K: "advance", DtMs: 4000},  // past the rebalance timeout, inside the session timeout
 			{K: "advance", DtMs: 11000}, // past the session timeout
 		},
-		Names: []string{"J0", "J1", "J2", "J0new", "S0", "S1", "S2", "L0", "L1", "+4s", "+11s"},
-		Depth: r.N(3, 5),
+		Names:    []string{"J0", "J1", "J2", "J0new", "S0", "S1", "S2", "L0", "L1", "+4s", "+11s"},
+		Depth:    r.N(3, 5),
+		DepthFor: map[string]int{"empty": r.N(3, 4)},
 		Preambles: map[string][]gOp{
 			"empty":   nil,
 			"stable3": {{K: "join", Slot: 0, Sub: sub}, {K: "join", Slot: 1, Sub: sub}, {K: "join", Slot: 2, Sub: sub}, {K: "settle"}},
 		},
 	}
-	defer r.Finish(fmt.Sprintf("bounded-exhaustive: ALL %d sequences of length %d (hence every shorter one as a prefix) over the alphabet %v, started from the empty group and from a settled Stable group of 3 members, for 3 members (session 10 s, rebalance timeout 3 s, cleanup 1 s) are run on the real coordinator on virtual time and judged after every step by the C14 observer of leg 'group' (leader in every join reply is a stored member; member list only and always in the leader's code-0 reply and equal to the stored membership; code 0 => every stored member's latest join reply carries the stored generation; after completion + leader sync every stored member's sync succeeds). non-trivial = sequence in which a >=2-member generation completed after somebody had been answered REBALANCE_IN_PROGRESS", spec.total(), spec.Depth, spec.Names))
+	defer r.Finish(fmt.Sprintf("bounded-exhaustive: ALL %d sequences of length %d (one step less from the empty group in the thorough tier; every shorter sequence is a prefix) over the alphabet %v, started from the empty group and from a settled Stable group of 3 members, for 3 members (session 10 s, rebalance timeout 3 s, cleanup 1 s) are run on the real coordinator on virtual time and judged after every step by the C14 observer of leg 'group' (leader in every join reply is a stored member; member list only and always in the leader's code-0 reply and equal to the stored membership; code 0 => every stored member's latest join reply carries the stored generation; after completion + leader sync every stored member's sync succeeds). non-trivial = sequence in which a >=2-member generation completed after somebody had been answered REBALANCE_IN_PROGRESS", spec.total(), spec.Depth, spec.Names))
 	var cur *c14Obs
 	gEnumerate(t, spec, func(seq string) []gObserver {
 		cur = &c14Obs{r: r, completed: map[string]bool{}, leaderOf: map[string]string{}, leaderSynced: map[string]bool{}, sawWait: map[string]bool{}}
